@@ -6,6 +6,7 @@ pub mod c09;
 pub mod c10;
 pub mod c11;
 pub mod c12;
+pub mod c15;
 pub mod c17;
 pub mod c18;
 pub mod c19;
@@ -15,6 +16,7 @@ pub fn lookup(name: &str) -> Option<Box<dyn Stream>> {
         "c19" => Some(Box::new(c19::C19::new())),
         "c18" => Some(Box::new(c18::C18::new())),
         "c17" => Some(Box::new(c17::C17::new())),
+        "c15" => Some(Box::new(c15::C15::new())),
         "c12" => Some(Box::new(c12::C12::new())),
         "c10" => Some(Box::new(c10::C10::new())),
         "c09" => Some(Box::new(c09::C09::new())),
